@@ -697,6 +697,13 @@ def directed(tier, prop="C13"):
                 sc = base_scenario(kind, seed)
                 sc["fault"] = {"nth": 0, "mut": {"type": "multi_count", "count": cnt}}
                 out.append(sc)
+            # the two status words crossed: a non-zero encapsulation status on a reply whose body looks like an ordinary
+            # multi-service answer (all services fine, or one refused and general status 0x1E)
+            for est in (0x03, 0x65, 0x10000):
+                for v in ([0] * n, [0] * (n - 1) + [5], [4] + [0] * (n - 1)):
+                    sc = base_scenario(kind, seed)
+                    sc["fault"] = {"nth": 0, "mut": {"type": "multi", "statuses": list(v), "encap_status": est}}
+                    out.append(sc)
         # truncation at every byte of the (first and last) reply
         for nth in sorted({0, n_replies(kind) - 1}):
             for at in range(0, 80 if tier == "quick" else 140):
